@@ -280,4 +280,7 @@ def run(ctx):
                 o = Prov(b).operand(c.args[0])
                 okc = okc or any(x[0] == "agg" and x[2] == "None" for x in o)
             ctx.check(okc, "R17.5", fnkey(b) + "#clears-thread-local", loc(b), "thread-local guard's clear fn does not reset the test sink to None")
+    # compile-fail witnesses (type-level part of the property), discharged by rustc's type checker
+    from mq import witness as _w
+    _w.report_cf(ctx, "W17", _w.run_witness(), "C17")
     return EXPL
